@@ -21,69 +21,13 @@ example : pctEncode [97, 32, 47, 195, 169, 126] = [97, 37, 50, 48, 37, 50, 70, 3
 
 /-! ## apply / unapply inversion -/
 
-/-- `PatWF` (decidable), the part the inversion needs: at least one segment, literals free of `/`, parameter names
-that percent-decoding leaves alone (`apply` looks a name up raw, `unapply` reports it decoded) and that are
-pairwise different. Everything except name normality is guaranteed by `RoutePattern::parse`. -/
-def Pat.rtWf (p : Pat) : Bool := !p.segs.isEmpty && p.segs.all Seg.rtOk && nodupB p.params
-
-/-- The map binds every parameter of the pattern to a non-empty string. -/
-def Pat.boundBy (p : Pat) (m : KV) : Bool := p.segs.all (Seg.bound m)
-
-theorem nodupB_nodup (xs : List Bytes) (h : nodupB xs = true) : xs.Nodup := by
-  induction xs with
-  | nil => exact List.nodup_nil
-  | cons x rest ih =>
-    simp only [nodupB, Bool.and_eq_true, Bool.not_eq_eq_eq_not, Bool.not_true] at h
-    rw [List.nodup_cons]
-    refine ⟨?_, ih h.2⟩
-    intro hin
-    simp only [List.contains_eq_mem, decide_eq_false_iff_not, decide_eq_true_eq] at h
-    exact h.1 hin
-
 /-- Filling a well-formed pattern and matching the produced path against the same pattern (URI scheme = the
 pattern's, or absent) returns exactly the parameter values, in pattern order. -/
 theorem C18_unapply_apply (p : Pat) (m : KV) (hwf : p.rtWf = true) (hb : p.boundBy m = true) :
     ∃ path, p.apply m = .ok (schemePrefix p.scheme ++ path) ∧
       ∀ sch, sch = p.scheme ∨ sch = none →
-        p.unapplyUri sch path = some (p.params.map fun n => (n, valOf m n)) := by
-  simp only [Pat.rtWf, Bool.and_eq_true, Bool.not_eq_eq_eq_not, Bool.not_true, List.all_eq_true] at hwf
-  simp only [Pat.boundBy, List.all_eq_true] at hb
-  obtain ⟨⟨hne, hw⟩, hnd⟩ := hwf
-  have hnd' : (segParams p.segs).Nodup := nodupB_nodup _ hnd
-  have happ := applySegs_bound m p.absolute p.segs true hb
-  refine ⟨joinParts p.absolute true (p.segs.map (partOf m)), ?_, ?_⟩
-  · simp [Pat.apply, happ]
-  · intro sch hsch
-    have hclash : schemeClash p.scheme sch = false := by
-      rcases hsch with rfl | rfl
-      · cases p.scheme <;> simp [schemeClash]
-      · cases p.scheme <;> simp [schemeClash]
-    have hun := unapplyParts_applied m p.segs [] hw hb
-    rw [insAll_nodup m p.segs [] hnd' (by simp)] at hun
-    have hslash : ∀ y ∈ p.segs.map (partOf m), ∀ b ∈ y, b ≠ 47 := by
-      intro y hy
-      simp only [List.mem_map] at hy
-      obtain ⟨s, hs, rfl⟩ := hy
-      exact partOf_no_slash m s (hw s hs)
-    have hparams : segParams p.segs = p.params := rfl
-    rw [hparams] at hun
-    have hmapne : p.segs.map (partOf m) ≠ [] := by
-      intro h0; simp at h0; simp [h0] at hne
-    generalize p.segs.map (partOf m) = parts at hun hslash hmapne
-    cases parts with
-    | nil => exact absurd rfl hmapne
-    | cons x xs =>
-      unfold Pat.unapplyUri
-      simp only [hclash, Bool.false_eq_true, ↓reduceIte]
-      cases habs : p.absolute with
-      | true =>
-        simp only [↓reduceIte]
-        rw [splitSlash_join_abs _ _ hslash]
-        simpa using hun
-      | false =>
-        simp only [Bool.false_eq_true, ↓reduceIte]
-        rw [splitSlash_join_rel _ _ hslash]
-        simpa using hun
+        p.unapplyUri sch path = some (p.params.map fun n => (n, valOf m n)) :=
+  ⟨p.pathOf m, unapply_apply_core p m hwf hb⟩
 
 /-- `swim:/unit/:id/a%62` with `id = "x y/é"`. -/
 def exPat : Pat :=
@@ -93,6 +37,43 @@ example : exPat.rtWf = true ∧ exPat.boundBy exMap = true ∧
     (exPat.apply exMap).toOption = some [115, 119, 105, 109, 58, 47, 117, 110, 105, 116, 47, 120, 37, 50, 48, 121,
       37, 50, 70, 37, 67, 51, 37, 65, 57, 47, 97, 37, 54, 50] := by
   decide
+
+/-! ## … and through the route string (`apply` then `unapply_str`) -/
+
+/-- Full statement: for every pattern the URI parser can read back (`strWf`) and every map of non-empty strings,
+`unapply_str(apply(m)) = m`. **False of the current code** (F12b): see `C18_roundtrip_str_fails`. -/
+def C18_roundtrip_str : Prop :=
+  ∀ (p : Pat) (m : KV), p.strWf = true → p.boundBy m = true →
+    ∃ route, p.apply m = .ok route ∧ p.unapplyStr route = some (p.params.map fun n => (n, valOf m n))
+
+/-- F12b: `/:x` with `x = "a~b"` gives the route `/a~b`, which `RouteUri::from_str` reads as the path `/a`
+(`~` is not a path character and unparsed trailing input is ignored): the match binds `x = "a"`. -/
+theorem C18_roundtrip_str_fails : ¬ C18_roundtrip_str := by
+  intro h
+  obtain ⟨route, h1, h2⟩ := h ⟨none, true, [.param [120]]⟩ [([120], [97, 126, 98])] (by decide) (by decide)
+  have hr : route = [47, 97, 126, 98] := by
+    have : (Pat.apply ⟨none, true, [.param [120]]⟩ [([120], [97, 126, 98])]).toOption = some [47, 97, 126, 98] := by
+      decide
+    rw [h1] at this
+    simpa [Except.toOption] using this
+  subst hr
+  exact absurd h2 (by decide)
+
+/-- The table fact behind it, re-checked against the source on every run: `~` is the only ASCII byte that `apply`
+leaves unescaped and the URI parser does not accept in a path. -/
+theorem C18_only_tilde_unsafe : ∀ b, b < 128 → ((shouldEncode b || pathChar b) = false ↔ b = 126) := by decide
+
+/-- What holds today: the round trip through the string is exact when no parameter value contains such a byte. -/
+theorem C18_roundtrip_str_partial (p : Pat) (m : KV) (hwf : p.strWf = true) (hb : p.boundBy m = true)
+    (hsafe : p.safeIn m = true) :
+    ∃ route, p.apply m = .ok route ∧ p.unapplyStr route = some (p.params.map fun n => (n, valOf m n)) := by
+  have hcore := unapply_apply_core p m (strWf_rtWf p hwf) hb
+  refine ⟨_, hcore.1, ?_⟩
+  unfold Pat.unapplyStr
+  rw [parseUri_apply p m hwf hb hsafe]
+  exact hcore.2 p.scheme (Or.inl rfl)
+
+example : exPat.strWf = true ∧ exPat.safeIn exMap = true := by decide
 
 /-! ## Matching is a function of the URI; parameters are never empty -/
 
